@@ -969,6 +969,10 @@ def main(prop, tier, seed):
         if not run.machinery_errors:
             from engines import layout_trace
             layout_trace.validate(run, prop, tier, seed)
+        if not run.machinery_errors and prop in layout_trace.TRACE_TARGETS:
+            # the models the repository ships (tests' resources, the manual's examples), identified against their own functions
+            from engines import examples_trace
+            examples_trace.validate(run, layout_trace.TRACE_TARGETS[prop], tier)
         if prop in ("C04", "C05") and not run.machinery_errors:
             calibrate_eeam(run)
         if tier == "thorough" and prop in ("C01", "C03", "C05"):
